@@ -27,7 +27,13 @@ type Parser struct {
 	peekToken    *Token // Next token (lookahead)
 	resolver     ReferenceResolver
 	lexErr       error // first error reported by the lexer, if any
+	depth        int   // current nesting depth of arrays and dictionaries
 }
+
+// maxNestingDepth bounds the nesting of arrays and dictionaries. Real documents
+// nest a handful of levels; unbounded nesting lets a small hostile input
+// exhaust the stack or (through wrapped error messages) memory.
+const maxNestingDepth = 512
 
 // SetReferenceResolver sets the reference resolver for the parser.
 // This is needed to resolve indirect stream lengths.
@@ -223,6 +229,11 @@ func (p *Parser) parseArray() (Object, error) {
 	if p.currentToken.Type != TokenArrayStart {
 		return nil, fmt.Errorf("expected '[', got %v", p.currentToken.Type)
 	}
+	if p.depth >= maxNestingDepth {
+		return nil, fmt.Errorf("arrays and dictionaries nested deeper than %d levels", maxNestingDepth)
+	}
+	p.depth++
+	defer func() { p.depth-- }()
 	p.nextToken()
 
 	var arr Array
@@ -260,6 +271,11 @@ func (p *Parser) parseDict() (Object, error) {
 	if p.currentToken.Type != TokenDictStart {
 		return nil, fmt.Errorf("expected '<<', got %v", p.currentToken.Type)
 	}
+	if p.depth >= maxNestingDepth {
+		return nil, fmt.Errorf("arrays and dictionaries nested deeper than %d levels", maxNestingDepth)
+	}
+	p.depth++
+	defer func() { p.depth-- }()
 	p.nextToken()
 
 	dict := make(Dict)
